@@ -171,6 +171,10 @@ func checkSpecs() map[string]*CheckSpec {
 					jobs = append(jobs, J(encPkg, "H_C17_unset", t, m, 0, 0, 0, 1, 0))
 				}
 			}
+			// serialize, change through held references, serialize again
+			for what := 0; what <= 3; what++ {
+				jobs = append(jobs, J(encPkg, "H_C17_modify", what))
+			}
 			return jobs
 		},
 		Explanation: "Bounded symbolic execution of Message.ToBytes over the shape catalogue. The harness builds, independently of the library, the list of (tag, canonical text) of exactly the populated leaves in template order with a count field before each non-empty group, frames it, and asserts byte equality with the library output for all symbolic values. Population routes: Set on the template value, replacement by the public constructors (NewString/NewInt/NewUint/NewFloat/NewTime/NewRaw), FromBytes; Set(nil) un-population.",
@@ -877,7 +881,7 @@ func init() {
 			Extra:        c12Check,
 			Explanation:  "Translation validation. cmd/fixgen is built from the current tree and run on: source/fix44.xml; generator/testdata/fix.4.4.xml with its duplicate message type removed (quick: its first 12 messages with all components); and K schemas derived from the reference by removing / swapping / renaming / adding fields, toggling 'required', re-typing through the type mapping, removing a message, adding a group member (seeded by VERIF_SEED). For each, an oracle that reads the XML independently of the generator package derives a driver that uses every generated constant, constructor and accessor by the name and Go type the schema implies; generated package + driver are loaded into the symbolic engine and for every container (message, component, header, trailer, group entry) and every field member: set it with a symbolic value on an otherwise minimal container and assert getter == value and wire == exactly the expected tag=value at its schema position (all values, one solver query); the populating constructor with symbolic required arguments yields exactly the required members in schema order; a fully populated container serializes its members in schema order; MsgType/Field constants equal the schema's. A driver that does not compile against the generated package is a violation (names, arity or Go types differ from the schema). Side conditions checked concretely: deterministic output, same files for relative / nested / absolute output directories, duplicate message types and field numbers rejected, tests/fix44 equals the regenerated reference package declaration by declaration.",
 			Rule:         "program = one generated package; case = (container, member, mode) x path",
-			Bounds:       map[string]string{"quick": "2 shipped schemas (large one truncated to 12 messages) + 6 derived; values: strings 2 bytes, ints 10..99, floats/times opaque", "thorough": "full large schema (92 messages) + 27 derived"},
+			Bounds:       map[string]string{"quick": "2 shipped schemas (large one truncated to 12 messages) + 10 derived; values: strings 2 bytes, ints 10..99, floats/times opaque", "thorough": "full large schema (92 messages) + 30 derived"},
 			Assumptions:  append(append([]string{}, commonAssumptions...), "the oracle's reading of the schema conventions (naming: <NoX> -> XGrp/XEntry, Create<Msg>/New<Component> take the required members, enumerated non-boolean fields are strings, BeginString/BodyLength/MsgType/CheckSum excluded from header/trailer components) is part of the claim"),
 			Outside:      "schemas outside the enumerated family; that the generator terminates or fails cleanly on arbitrary XML; enum constant names",
 			Replay:       "engine",
